@@ -104,6 +104,7 @@ func runC05() {
 	interpgen.Matrix(func(p *interpgen.Program) { res := emit(p); refCheck(p, res) }, stride)
 	interpgen.BigNumSweep(func(p *interpgen.Program) { emit(p) })
 	interpgen.ArithEdges(func(p *interpgen.Program) { emit(p) }, c.Thorough())
+	interpgen.DeepStacks(func(p *interpgen.Program) { emit(p) })
 	interpgen.Limits(func(p *interpgen.Program) { emit(p) }, c.Thorough())
 	interpgen.ScriptBoundary(func(p *interpgen.Program) { emit(p) })
 	// two value-producing opcodes in one execution (what one leaves behind must not influence the other):
@@ -381,6 +382,10 @@ func sigShapes(r *common.Rand, emitp func(*interpgen.Program), n int) {
 		if i%3 == 1 {
 			sig = derish()
 		}
+		hugeSig := i%97 == 11 // a "signature" item that needs the longest push form when the script code is rebuilt
+		if hugeSig {
+			sig = r.Bytes([]int{65535, 65536, 70000}[r.Intn(3)])
+		}
 		var unlock, lock []byte
 		// a data push in each of the longer encodings inside the script the signature opcode will serialise again
 		if i%4 == 2 {
@@ -466,7 +471,10 @@ func sigShapes(r *common.Rand, emitp func(*interpgen.Program), n int) {
 		if r.Chance(15) {
 			p.Flags |= interpgen.FNullFail
 		}
-		if i%3 == 1 { // the signature-encoding flags, one or several
+		if hugeSig { // only after Genesis can an item be that long; no encoding flags (they refuse it before it is used)
+			p.Flags = interpgen.FGenesis
+		}
+		if i%3 == 1 && !hugeSig { // the signature-encoding flags, one or several
 			p.Flags |= []uint32{interpgen.FDERSig, interpgen.FLowS, interpgen.FStrictEnc, interpgen.FDERSig | interpgen.FLowS | interpgen.FStrictEnc, 0}[r.Intn(5)]
 		}
 		emitp(p.Fix())
